@@ -62,13 +62,15 @@ def live_only(desc):
     return True
 
 
-def check_list(acc, desc, structural):
+def check_list(acc, desc, structural, repeat=False):
     import circuitgraph as cg
 
-    case = {"kind": "list", "desc": desc, "structural": structural}
+    case = {"kind": "list", "desc": desc, "structural": structural, "repeat": repeat}
     c = space.build(desc)
     acc.transitions += 1
     try:
+        if case.get("repeat"):
+            cg.tx.supergates(c)  # an earlier call on the same object must not matter
         sgs = cg.tx.supergates(c)
     except Exception as e:  # noqa: BLE001
         acc.violation("list", f"raises:{common.exc_name(e)}", case, repr(e))
@@ -194,6 +196,10 @@ def descs_struct(tier):
         d = space.to_desc(2, gates, consts=("0", "1"), outputs="sinks")
         if live_only(d) and not any(x[1] in ("0", "1") and x[3] for x in d["nodes"]):
             yield d
+    for gates in space.circuits(0, 3, types=("nand", "xor", "not"), max_arity=2, consts=("0", "1"), min_gates=1):
+        d = space.to_desc(0, gates, consts=("0", "1"), outputs="sinks")   # no primary input at all
+        if not any(x[1] in ("0", "1") and x[3] for x in d["nodes"]):
+            yield d
     # two output cones sharing a gate n that can be internal to one supergate and an input of another
     for t1, t2, t3, t4, t5 in itertools.product(("and", "xor"), repeat=5):
         for x in ("a", "b", "p", "t"):
@@ -227,6 +233,8 @@ def run(job):
             acc.nontrivial += 1
         if sum(1 for x in desc["nodes"] if x[3]) == 1:
             check_super(acc, desc)
+        if (_idx // job["of"]) % 16 == 0:
+            check_list(acc, desc, structural, repeat=True)
         acc.sample({"desc": desc})
         if acc.out_of_time():
             break
@@ -237,7 +245,7 @@ def replay(case, job):
     common.setup_paths()
     acc = Acc(job)
     if case["kind"] == "list":
-        check_list(acc, case["desc"], case["structural"])
+        check_list(acc, case["desc"], case["structural"], repeat=case.get("repeat", False))
     else:
         check_super(acc, case["desc"])
     return acc.result()
